@@ -2,11 +2,11 @@
 (* Exhaustive exploration of TunerLoop for small constants.                 *)
 EXTENDS TunerLoop
 
-CONSTANTS NW, MaxRep, MaxRuns, MaxFail, Kind, Async, Wait, Del, FailB, ExtB, CKind, K, EmptyExit, MayExhaust, R3, R13, R8, Sjwd, SpecRm, K2
+CONSTANTS NW, MaxRep, MaxRuns, MaxFail, Kind, Async, Wait, Del, FailB, ExtB, CKind, K, EmptyExit, MayExhaust, R3, R13, R8, Sjwd, SpecRm, K2, Linger
 
 Conf == [nw |-> NW, maxrep |-> MaxRep, maxruns |-> MaxRuns, maxfail |-> MaxFail, kind |-> Kind,
          async |-> Async, wait |-> Wait, del |-> Del, failb |-> FailB, extb |-> ExtB,
-         ckind |-> CKind, k |-> K, k2 |-> K2, emptyexit |-> EmptyExit, mayexhaust |-> MayExhaust, r3 |-> R3, r13 |-> R13, r8 |-> R8, sjwd |-> Sjwd, spec |-> SpecRm, also |-> FALSE, sim |-> FALSE]
+         ckind |-> CKind, k |-> K, k2 |-> K2, emptyexit |-> EmptyExit, mayexhaust |-> MayExhaust, r3 |-> R3, r13 |-> R13, r8 |-> R8, sjwd |-> Sjwd, linger |-> Linger, spec |-> SpecRm, also |-> FALSE, sim |-> FALSE]
 
 Init == InitCommon(Conf)
 Spec == Init /\ [][Next]_vars
